@@ -400,4 +400,188 @@ mod probes {
         notes.dedup();
         notes
     }
+
+    // ---- C17 / C02: the allocator-api2 compatibility layer (src/features/allocator_util.rs) carries a
+    // request exactly as the crate's own Allocator trait does: twin arenas, one driven through
+    // `bump_scope::alloc::Allocator`, the other through `allocator_api2::alloc::Allocator` (on the Bump,
+    // on the BumpScope, through WithoutDealloc / WithoutShrink), the same random allocate / grow /
+    // grow_zeroed / shrink / deallocate sequence: same offsets, same lengths, same bytes allocated
+    // after every step, and the contents of every block survive.  Then a real client of that
+    // interface: allocator_api2's Vec and Box with the arena as allocator, std's Vec in lock-step.
+    pub enum Req { Alloc(core::alloc::Layout), Grow(core::ptr::NonNull<u8>, core::alloc::Layout, core::alloc::Layout), GrowZeroed(core::ptr::NonNull<u8>, core::alloc::Layout, core::alloc::Layout),
+                   Shrink(core::ptr::NonNull<u8>, core::alloc::Layout, core::alloc::Layout), Dealloc(core::ptr::NonNull<u8>, core::alloc::Layout) }
+    fn run_own<A: bump_scope::alloc::Allocator>(a: &A, q: Req) -> Result<core::ptr::NonNull<[u8]>, ()> {
+        unsafe { match q {
+            Req::Alloc(l) => a.allocate(l).map_err(|_| ()),
+            Req::Grow(p, o, n) => a.grow(p, o, n).map_err(|_| ()),
+            Req::GrowZeroed(p, o, n) => a.grow_zeroed(p, o, n).map_err(|_| ()),
+            Req::Shrink(p, o, n) => a.shrink(p, o, n).map_err(|_| ()),
+            Req::Dealloc(p, l) => { a.deallocate(p, l); Err(()) }
+        } }
+    }
+    fn run_foreign<A: allocator_api2::alloc::Allocator>(a: &A, q: Req) -> Result<core::ptr::NonNull<[u8]>, ()> {
+        unsafe { match q {
+            Req::Alloc(l) => a.allocate(l).map_err(|_| ()),
+            Req::Grow(p, o, n) => a.grow(p, o, n).map_err(|_| ()),
+            Req::GrowZeroed(p, o, n) => a.grow_zeroed(p, o, n).map_err(|_| ()),
+            Req::Shrink(p, o, n) => a.shrink(p, o, n).map_err(|_| ()),
+            Req::Dealloc(p, l) => { a.deallocate(p, l); Err(()) }
+        } }
+    }
+    fn own_op<S: bump_scope::settings::BumpAllocatorSettings>(via: u64, b: &Bump<Global, S>, q: Req) -> Result<core::ptr::NonNull<[u8]>, ()>
+    where Global: bump_scope::BaseAllocator<S::GuaranteedAllocated> {
+        match via { 2 => run_own(&bump_scope::WithoutDealloc(b), q), 3 => run_own(&bump_scope::WithoutShrink(b), q), 1 => run_own(b.as_scope(), q), _ => run_own(b, q) }
+    }
+    fn foreign_op<S: bump_scope::settings::BumpAllocatorSettings>(via: u64, b: &Bump<Global, S>, q: Req) -> Result<core::ptr::NonNull<[u8]>, ()>
+    where Global: bump_scope::BaseAllocator<S::GuaranteedAllocated> {
+        match via { 2 => run_foreign(&bump_scope::WithoutDealloc(b), q), 3 => run_foreign(&bump_scope::WithoutShrink(b), q), 1 => run_foreign(b.as_scope(), q), _ => run_foreign(b, q) }
+    }
+    macro_rules! compat_with_settings {
+        ($ma:literal, $up:literal, $notes:ident, $r:ident) => {{
+            use core::alloc::Layout;
+            use core::ptr::NonNull;
+            type B = Bump<Global, BumpSettings<$ma, $up>>;
+            let tag = format!("MIN_ALIGN={} UP={}", $ma, $up);
+            let via = $r.below(4);     // which implementor carries the foreign-trait calls
+            let via_name = ["Bump", "BumpScope", "WithoutDealloc<&Bump>", "WithoutShrink<&Bump>"][via as usize];
+            let b1: B = Bump::with_size(256);
+            let b2: B = Bump::with_size(256);
+            let off = |b: &B, p: usize| -> (usize, usize) {
+                let st = b.stats();
+                match st.small_to_big().enumerate().find(|(_, c)| (c.chunk_start().as_ptr() as usize) <= p && p <= c.chunk_end().as_ptr() as usize) {
+                    Some((i, c)) => (i, p - c.chunk_start().as_ptr() as usize), None => (usize::MAX, 0) }
+            };
+            // live blocks: (ptr in b1, ptr in b2, layout, fill byte)
+            let mut live: Vec<(NonNull<u8>, NonNull<u8>, Layout, u8)> = vec![];
+            let mut fillb = 1u8;
+            let steps = $r.range(4, 30);
+            let mut trace = String::new();
+            'steps: for _ in 0..steps {
+                let op = if live.is_empty() { 0 } else { $r.below(6) };
+                let size = match $r.below(4) { 0 => 0usize, 1 => $r.range(1, 16) as usize, 2 => $r.range(1, 120) as usize, _ => $r.range(100, 700) as usize };
+                // alignments up to the chunk alignment only: the two arenas' chunks sit at unrelated addresses
+                let align = 1usize << $r.below(5);
+                let nl = Layout::from_size_align(size, align).unwrap();
+                let res: Option<(NonNull<[u8]>, NonNull<[u8]>)>;
+                let mut idx = 0usize;
+                match op {
+                    0 | 1 => {
+                        trace.push_str(&format!(" alloc({size},{align})"));
+                        let x = own_op(via, &b1, Req::Alloc(nl)); let y = foreign_op(via, &b2, Req::Alloc(nl));
+                        res = match (x, y) { (Ok(x), Ok(y)) => Some((x, y)), (Err(_), Err(_)) => None,
+                            _ => { $notes.push(format!("entry-points-differ: allocate({size},{align}) succeeds through one Allocator trait and fails through the other ({via_name}, {tag}):{trace}")); break 'steps; } };
+                        if let Some((x, y)) = res { unsafe { x.cast::<u8>().as_ptr().write_bytes(fillb, size); y.cast::<u8>().as_ptr().write_bytes(fillb, size); } live.push((x.cast(), y.cast(), nl, fillb)); fillb = fillb.wrapping_add(1).max(1); }
+                    }
+                    2 | 3 => {
+                        idx = $r.below(live.len() as u64) as usize;
+                        let (p1, p2, ol, fb) = live[idx];
+                        let nl = Layout::from_size_align(ol.size() + size, if $r.coin(1, 4) { align } else { ol.align() }).unwrap();
+                        let zeroed = op == 3;
+                        trace.push_str(&format!(" grow{}#{idx}({}->{},{})", if zeroed { "_zeroed" } else { "" }, ol.size(), nl.size(), nl.align()));
+                        let (x, y) = if zeroed { (own_op(via, &b1, Req::GrowZeroed(p1, ol, nl)), foreign_op(via, &b2, Req::GrowZeroed(p2, ol, nl))) } else { (own_op(via, &b1, Req::Grow(p1, ol, nl)), foreign_op(via, &b2, Req::Grow(p2, ol, nl))) };
+                        res = match (x, y) { (Ok(x), Ok(y)) => Some((x, y)), (Err(_), Err(_)) => None,
+                            _ => { $notes.push(format!("entry-points-differ: grow succeeds through one Allocator trait and fails through the other ({via_name}, {tag}):{trace}")); break 'steps; } };
+                        if let Some((x, y)) = res {
+                            for (nm, q) in [("own", x), ("allocator-api2", y)] {
+                                let sl = unsafe { core::slice::from_raw_parts(q.cast::<u8>().as_ptr(), nl.size()) };
+                                if sl[..ol.size()].iter().any(|b| *b != fb) { $notes.push(format!("entry-points-differ: grow through the {nm} Allocator trait lost the old contents ({via_name}, {tag}):{trace}")); }
+                                if zeroed && sl[ol.size()..].iter().any(|b| *b != 0) { $notes.push(format!("entry-points-differ: grow_zeroed through the {nm} Allocator trait left a non-zero tail ({via_name}, {tag}):{trace}")); }
+                            }
+                            unsafe { x.cast::<u8>().as_ptr().write_bytes(fb, nl.size()); y.cast::<u8>().as_ptr().write_bytes(fb, nl.size()); }
+                            live[idx] = (x.cast(), y.cast(), nl, fb);
+                        }
+                    }
+                    4 => {
+                        idx = $r.below(live.len() as u64) as usize;
+                        let (p1, p2, ol, fb) = live[idx];
+                        let ns = $r.below(ol.size() as u64 + 1) as usize;
+                        let nl = Layout::from_size_align(ns, if $r.coin(1, 4) { align } else { ol.align() }).unwrap();
+                        trace.push_str(&format!(" shrink#{idx}({}->{},{})", ol.size(), nl.size(), nl.align()));
+                        let (x, y) = (own_op(via, &b1, Req::Shrink(p1, ol, nl)), foreign_op(via, &b2, Req::Shrink(p2, ol, nl)));
+                        res = match (x, y) { (Ok(x), Ok(y)) => Some((x, y)), (Err(_), Err(_)) => None,
+                            _ => { $notes.push(format!("entry-points-differ: shrink succeeds through one Allocator trait and fails through the other ({via_name}, {tag}):{trace}")); break 'steps; } };
+                        if let Some((x, y)) = res {
+                            for (nm, q) in [("own", x), ("allocator-api2", y)] {
+                                let sl = unsafe { core::slice::from_raw_parts(q.cast::<u8>().as_ptr(), nl.size()) };
+                                if sl.iter().any(|b| *b != fb) { $notes.push(format!("entry-points-differ: shrink through the {nm} Allocator trait lost the contents ({via_name}, {tag}):{trace}")); }
+                            }
+                            live[idx] = (x.cast(), y.cast(), nl, fb);
+                        }
+                    }
+                    _ => {
+                        idx = $r.below(live.len() as u64) as usize;
+                        let (p1, p2, ol, _) = live.remove(idx);
+                        trace.push_str(&format!(" dealloc#{idx}({})", ol.size()));
+                        let _ = own_op(via, &b1, Req::Dealloc(p1, ol)); let _ = foreign_op(via, &b2, Req::Dealloc(p2, ol));
+                        res = None;
+                    }
+                }
+                if let Some((x, y)) = res {
+                    let (ox, oy) = (off(&b1, x.cast::<u8>().as_ptr() as usize), off(&b2, y.cast::<u8>().as_ptr() as usize));
+                    if x.len() != y.len() || (x.len() != 0 && ox != oy) {
+                        $notes.push(format!("entry-points-differ: the crate's Allocator trait returns (chunk {}, offset {}, len {}), the allocator-api2 one (chunk {}, offset {}, len {}) ({via_name}, {tag}):{trace}", ox.0, ox.1, x.len(), oy.0, oy.1, y.len()));
+                        break 'steps;
+                    }
+                }
+                if b1.stats().allocated() != b2.stats().allocated() || b1.stats().count() != b2.stats().count() {
+                    $notes.push(format!("entry-points-differ: allocated {} / {} chunks after the crate's Allocator trait, {} / {} after the allocator-api2 one ({via_name}, {tag}):{trace}", b1.stats().allocated(), b1.stats().count(), b2.stats().allocated(), b2.stats().count()));
+                    break 'steps;
+                }
+                // every live block still holds its pattern, in both arenas
+                for (k, (p1, p2, l, fb)) in live.iter().enumerate() {
+                    for (nm, q) in [("own", p1), ("allocator-api2", p2)] {
+                        let sl = unsafe { core::slice::from_raw_parts(q.as_ptr(), l.size()) };
+                        if sl.iter().any(|b| b != fb) { $notes.push(format!("entry-points-differ: block #{k} changed in the arena driven through the {nm} Allocator trait ({via_name}, {tag}):{trace}")); break 'steps; }
+                    }
+                }
+            }
+            // ---- a real client: allocator_api2's Vec and Box on the arena, std's Vec in lock-step
+            {
+                let b: B = Bump::with_size(128);
+                let keep = b.alloc_slice_fill(7, 0x77u8).as_ptr() as usize;
+                let mut v: allocator_api2::vec::Vec<u32, &B> = allocator_api2::vec::Vec::new_in(&b);
+                let mut w: std::vec::Vec<u32> = vec![];
+                let mut t2 = String::new();
+                for i in 0..$r.range(5, 40) {
+                    match $r.below(8) {
+                        0 | 1 | 2 => { let x = $r.next() as u32; v.push(x); w.push(x); t2.push_str(" push"); }
+                        3 => { let k = $r.range(0, 50) as usize; v.extend((0..k as u32).map(|j| j * 3 + i as u32)); w.extend((0..k as u32).map(|j| j * 3 + i as u32)); t2.push_str(&format!(" extend({k})")); }
+                        4 => { let k = $r.below(w.len() as u64 + 1) as usize; v.truncate(k); w.truncate(k); t2.push_str(&format!(" truncate({k})")); }
+                        5 => { v.shrink_to_fit(); w.shrink_to_fit(); t2.push_str(" shrink_to_fit"); }
+                        6 => { let k = $r.range(0, 100) as usize; v.reserve(k); t2.push_str(&format!(" reserve({k})")); }
+                        _ => { let bx = allocator_api2::boxed::Box::new_in([i as u64; 3], &b); if *bx != [i as u64; 3] { $notes.push(format!("entry-points-differ: an allocator_api2 Box on the arena reads back wrong ({tag})")); } if $r.coin(1, 2) { core::mem::forget(bx); } t2.push_str(" box"); }
+                    }
+                    if v.as_slice() != w.as_slice() { $notes.push(format!("entry-points-differ: an allocator_api2 Vec with the arena as its allocator differs from std's Vec ({tag}):{t2}")); break; }
+                }
+                drop(v);
+                if unsafe { core::slice::from_raw_parts(keep as *const u8, 7) } != [0x77u8; 7] { $notes.push(format!("entry-points-differ: an earlier allocation changed while an allocator_api2 Vec used the arena ({tag}):{t2}")); }
+                // BumpBox -> allocator_api2 Box (into_box): the value is dropped once, by the Box
+                struct Cnt<'a>(&'a core::cell::Cell<u32>, u64);
+                impl Drop for Cnt<'_> { fn drop(&mut self) { self.0.set(self.0.get() + 1); } }
+                let drops = core::cell::Cell::new(0u32);
+                let before = b.stats().allocated();
+                let bb = b.alloc(Cnt(&drops, 0xFEED));
+                let bx: allocator_api2::boxed::Box<Cnt, &B> = bb.into_box(&b);
+                if bx.1 != 0xFEED || drops.get() != 0 { $notes.push(format!("entry-points-differ: BumpBox::into_box changed or dropped the value ({tag})")); }
+                drop(bx);
+                if drops.get() != 1 { $notes.push(format!("entry-points-differ: a value moved into an allocator_api2 Box by into_box was dropped {} times ({tag})", drops.get())); }
+                if b.stats().allocated() > before + 16 && b.stats().count() == 1 { $notes.push(format!("entry-points-differ: dropping the allocator_api2 Box made by into_box left {} bytes allocated, {before} before ({tag})", b.stats().allocated())); }
+            }
+        }};
+    }
+
+    pub fn compat_probe(r: &mut Rng) -> Vec<String> {
+        let mut notes: Vec<String> = vec![];
+        match r.below(6) {
+            0 => compat_with_settings!(1, true, notes, r),
+            1 => compat_with_settings!(1, false, notes, r),
+            2 => compat_with_settings!(8, true, notes, r),
+            3 => compat_with_settings!(8, false, notes, r),
+            4 => compat_with_settings!(16, true, notes, r),
+            _ => compat_with_settings!(4, false, notes, r),
+        }
+        notes.sort();
+        notes.dedup();
+        notes
+    }
 }
